@@ -177,7 +177,8 @@ theorem resolve_ids : ∀ (p : List Step) (v : Val) (l : Nat) (k : Kind) (cs : L
     intro l k cs h
     simp only [resolve, Option.some.injEq, Prod.mk.injEq] at h
     obtain ⟨rfl, rfl, rfl⟩ := h
-    simp [Val.ids]
+    simp only [Val.ids, List.mem_cons, true_or, true_and]
+    exact fun i hi => Or.inr hi
   | s :: ss, .node j k0 cs0 => by
     intro l k cs h
     simp only [resolve] at h
@@ -462,5 +463,711 @@ theorem buildFields_range (σ : State) (c : Class) (args : List (String × Src))
           rcases hi with hi | hi
           · have := h2.2 i hi; omega
           · exact h3.2 i hi
+
+/-! ## Part 2: separation invariant, frame -/
+
+/-- no two groups (default objects, caller, settings objects) share a location; every location in
+use is below the allocation counter; every default object can be stored by its parameter's store
+kind without creating an alias -/
+structure Inv (t : Table) (σ : State) : Prop where
+  pos : 0 < σ.groups.length
+  below : ∀ (g : Nat) (grp : Group), σ.groups[g]? = some grp → ∀ i ∈ grp.ids, i < σ.next
+  sep : ∀ (g h : Nat) (gg gh : Group), σ.groups[g]? = some gg → σ.groups[h]? = some gh → g ≠ h →
+    ∀ i ∈ gg.ids, i ∉ gh.ids
+  dflt : ∀ c p, p ∈ t c → ∀ v, σ.lookup 0 (gkey c p.name) = some v → deepEnough p.store v = true
+
+/-- `σ'` differs from `σ` at most in group `tgt` (which may be new), whose locations are those it
+had before or new ones -/
+structure GroupsStep (σ σ' : State) (tgt : Nat) : Prop where
+  next_le : σ.next ≤ σ'.next
+  frame : ∀ (g : Nat) (grp : Group), σ.groups[g]? = some grp → g ≠ tgt → σ'.groups[g]? = some grp
+  only : ∀ (g : Nat) (grp' : Group), σ'.groups[g]? = some grp' → g = tgt ∨ σ.groups[g]? = some grp'
+  fresh : ∀ (grp' : Group), σ'.groups[tgt]? = some grp' → ∀ i ∈ grp'.ids,
+    (σ.next ≤ i ∧ i < σ'.next) ∨ (∃ grp : Group, σ.groups[tgt]? = some grp ∧ i ∈ grp.ids)
+
+theorem GroupsStep.refl (σ : State) (tgt : Nat) : GroupsStep σ σ tgt where
+  next_le := Nat.le_refl _
+  frame := fun _ _ h _ => h
+  only := fun _ _ h => Or.inr h
+  fresh := fun grp' h _ hi => Or.inr ⟨grp', h, hi⟩
+
+theorem GroupsStep.files {σ σ' : State} {tgt : Nat} (hn : σ'.next = σ.next) (hg : σ'.groups = σ.groups) :
+    GroupsStep σ σ' tgt where
+  next_le := by omega
+  frame := fun _ _ h _ => by rw [hg]; exact h
+  only := fun _ _ h => Or.inr (by rw [hg] at h; exact h)
+  fresh := fun grp' h _ hi => Or.inr ⟨grp', by rw [hg] at h; exact h, hi⟩
+
+theorem GroupsStep.trans {σ σ1 σ2 : State} {tgt : Nat} (h1 : GroupsStep σ σ1 tgt) (h2 : GroupsStep σ1 σ2 tgt) :
+    GroupsStep σ σ2 tgt where
+  next_le := Nat.le_trans h1.next_le h2.next_le
+  frame := fun g grp h hne => h2.frame g grp (h1.frame g grp h hne) hne
+  only := fun g grp' h => by
+    rcases h2.only g grp' h with h | h
+    · exact Or.inl h
+    · exact h1.only g grp' h
+  fresh := fun grp' h i hi => by
+    have a := h1.next_le
+    have b := h2.next_le
+    rcases h2.fresh grp' h i hi with hf | ⟨grp1, hg1, hi1⟩
+    · exact Or.inl ⟨by omega, hf.2⟩
+    · rcases h1.fresh grp1 hg1 i hi1 with hf | hold
+      · exact Or.inl ⟨hf.1, by omega⟩
+      · exact Or.inr hold
+
+theorem Inv.step {t : Table} {σ σ' : State} {tgt : Nat} (hI : Inv t σ) (hs : GroupsStep σ σ' tgt)
+    (h0 : tgt ≠ 0) : Inv t σ' := by
+  have hg0 : ∀ g0, σ.groups[0]? = some g0 → σ'.groups[0]? = some g0 :=
+    fun g0 h => hs.frame 0 g0 h (fun e => h0 e.symm)
+  obtain ⟨g0, hg0'⟩ : ∃ g0, σ.groups[0]? = some g0 := ⟨σ.groups[0]'hI.pos, by simp⟩
+  refine ⟨?_, ?_, ?_, ?_⟩
+  · have := hg0 g0 hg0'
+    cases hl : σ'.groups with
+    | nil => rw [hl] at this; simp at this
+    | cons a b => simp
+  · intro g grp hg i hi
+    by_cases hgt : g = tgt
+    · subst hgt
+      rcases hs.fresh grp hg i hi with hf | ⟨grp0, hgrp0, hi0⟩
+      · exact hf.2
+      · exact Nat.lt_of_lt_of_le (hI.below g grp0 hgrp0 i hi0) hs.next_le
+    · rcases hs.only g grp hg with h | h
+      · exact absurd h hgt
+      · exact Nat.lt_of_lt_of_le (hI.below g grp h i hi) hs.next_le
+  · intro g h gg gh hgg hgh hne i hi hi'
+    by_cases hgt : g = tgt
+    · subst hgt
+      have hold : σ.groups[h]? = some gh := by
+        rcases hs.only h gh hgh with e | e
+        · exact absurd e.symm hne
+        · exact e
+      rcases hs.fresh gg hgg i hi with hf | ⟨grp0, hgrp0, hi0⟩
+      · have := hI.below h gh hold i hi'; omega
+      · exact hI.sep g h grp0 gh hgrp0 hold hne i hi0 hi'
+    · have holdg : σ.groups[g]? = some gg := by
+        rcases hs.only g gg hgg with e | e
+        · exact absurd e hgt
+        · exact e
+      by_cases hht : h = tgt
+      · subst hht
+        rcases hs.fresh gh hgh i hi' with hf | ⟨grp0, hgrp0, hi0⟩
+        · have := hI.below g gg holdg i hi; omega
+        · exact hI.sep g h gg grp0 holdg hgrp0 hne i hi hi0
+      · have holdh : σ.groups[h]? = some gh := by
+          rcases hs.only h gh hgh with e | e
+          · exact absurd e hht
+          · exact e
+        exact hI.sep g h gg gh holdg holdh hne i hi hi'
+  · intro c p hp v hv
+    have : σ'.lookup 0 (gkey c p.name) = σ.lookup 0 (gkey c p.name) := by
+      simp only [State.lookup, hg0 g0 hg0', hg0']
+    rw [this] at hv
+    exact hI.dflt c p hp v hv
+
+/-! ### each operation is a `GroupsStep` on its target -/
+
+theorem lookup_mem {β : Type} : ∀ {l : List (String × β)} {k : String} {b : β},
+    l.lookup k = some b → ∃ a ∈ l, a.1 = k ∧ a.2 = b
+  | [], _, _ => by simp [List.lookup]
+  | (k', b') :: rest, k, b => by
+    intro hx
+    simp only [List.lookup] at hx
+    split at hx
+    · rename_i hk
+      simp only [Option.some.injEq] at hx
+      exact ⟨(k', b'), List.mem_cons_self, (beq_iff_eq.1 hk).symm, hx⟩
+    · obtain ⟨a, ha, h1, h2⟩ := lookup_mem hx
+      exact ⟨a, List.mem_cons_of_mem _ ha, h1, h2⟩
+
+theorem construct_step {t : Table} {σ σ' : State} {c : Class} {args : List (String × Src)}
+    (hI : Inv t σ) (hsafe : (Op.construct c args).safe t = true) (h : construct t σ c args = some σ') :
+    GroupsStep σ σ' σ.groups.length := by
+  unfold construct at h
+  split at h
+  · split at h
+    · rename_i fs n hb
+      simp only [Option.some.injEq] at h
+      subst h
+      have hA : ∀ p ∈ t c, ∀ x, args.lookup p.name = some (.var x) → p.store.deep = true := by
+        intro p hp x hx
+        simp only [Op.safe, List.all_eq_true] at hsafe
+        have hmem := lookup_mem hx
+        obtain ⟨a, ha, h1, h2⟩ := hmem
+        have := hsafe a ha
+        rw [h2] at this
+        simp only [List.all_eq_true] at this
+        have := this p hp
+        simp only [h1, bne_self_eq_false, Bool.false_or] at this
+        cases hs : p.store <;> simp_all [StoreKind.deep]
+      have hr := buildFields_range σ c args σ.next (t c) σ.next (Nat.le_refl _)
+        (fun p hp v hv => hI.dflt c p hp v hv) hA hb
+      refine ⟨hr.1, ?_, ?_, ?_⟩
+      · intro g grp hg _
+        have hlt : g < σ.groups.length := by
+          rcases Nat.lt_or_ge g σ.groups.length with h | h
+          · exact h
+          · rw [List.getElem?_eq_none h] at hg; cases hg
+        simp only [List.getElem?_append_left hlt]
+        exact hg
+      · intro g grp' hg
+        rcases Nat.lt_or_ge g σ.groups.length with hlt | hge
+        · right
+          simpa only [List.getElem?_append_left hlt] using hg
+        · left
+          rcases Nat.lt_or_ge σ.groups.length g with hgt | hle
+          · have : (σ.groups ++ [(⟨some c, fs⟩ : Group)])[g]? = none := by
+              apply List.getElem?_eq_none
+              simp only [List.length_append, List.length_singleton]; omega
+            simp only [this] at hg
+            cases hg
+          · omega
+      · intro grp' hg i hi
+        have : (σ.groups ++ [(⟨some c, fs⟩ : Group)])[σ.groups.length]? = some ⟨some c, fs⟩ := by
+          simp
+        simp only [this, Option.some.injEq] at hg
+        subst hg
+        exact Or.inl (hr.2 i hi)
+    · cases h
+  · cases h
+
+theorem setGroup_step {σ : State} {g : Nat} {grp : Group} {fs : List (String × Val)} {n : Nat}
+    (hg : σ.groups[g]? = some grp) (hn : σ.next ≤ n)
+    (hfs : ∀ i ∈ idsF fs, i ∈ grp.ids ∨ (σ.next ≤ i ∧ i < n)) :
+    GroupsStep σ { σ with next := n, groups := σ.groups.set g { grp with fields := fs } } g := by
+  refine ⟨hn, ?_, ?_, ?_⟩
+  · intro h grp' hh hne
+    simp only [List.getElem?_set_ne (Ne.symm hne)]
+    exact hh
+  · intro h grp' hh
+    by_cases e : h = g
+    · exact Or.inl e
+    · right
+      simpa only [List.getElem?_set_ne (Ne.symm e)] using hh
+  · intro grp' hh i hi
+    have hlt : g < σ.groups.length := by
+      rcases Nat.lt_or_ge g σ.groups.length with h | h
+      · exact h
+      · rw [List.getElem?_eq_none h] at hg; cases hg
+    simp only [List.getElem?_set_self hlt, Option.some.injEq] at hh
+    subst hh
+    rcases hfs i hi with h | h
+    · exact Or.inr ⟨grp, hg, h⟩
+    · exact Or.inl h
+
+theorem setField_step {σ σ' : State} {g : Nat} {attr : String} {v : Val} {n : Nat}
+    (hn : σ.next ≤ n) (hv : ∀ i ∈ v.ids, σ.next ≤ i ∧ i < n) (h : setField σ g attr v n = some σ') :
+    GroupsStep σ σ' g := by
+  unfold setField at h
+  split at h
+  · rename_i grp hg
+    simp only [Option.some.injEq] at h
+    subst h
+    apply setGroup_step hg hn
+    intro i hi
+    rcases upsert_ids i hi with h | h
+    · exact Or.inl h
+    · exact Or.inr (hv i h)
+  · cases h
+
+theorem load_step {σ σ' : State} {g f : Nat} (h : load σ g f = some σ') : GroupsStep σ σ' g := by
+  unfold load at h
+  split at h
+  · rename_i grp file hg hf
+    simp only [Option.some.injEq] at h
+    subst h
+    have hr := loadFields_range file grp.fields σ.next
+    exact setGroup_step hg hr.1 hr.2
+  · cases h
+
+theorem mutate_step {t : Table} {σ σ' : State} {g : Nat} {attr : String} {path : List Step} {last : Step}
+    {v : Val} (hI : Inv t σ) (h : mutate σ g attr path last v = some σ') : GroupsStep σ σ' g := by
+  unfold mutate at h
+  split at h
+  · cases h
+  · rename_i root hroot
+    split at h
+    · cases h
+    · rename_i l k cs hres
+      split at h
+      · cases h
+      · rename_i k' cs' hw
+        simp only [Option.some.injEq] at h
+        subst h
+        -- the group of the root
+        simp only [State.lookup] at hroot
+        split at hroot
+        · rename_i grp hg
+          have hrr := relabel_range σ.next v
+          have hres' := resolve_ids path root l k cs hres
+          have hl : l ∈ grp.ids := lookup_ids hroot l hres'.1
+          have hcs' : ∀ i ∈ idsL cs', i ∈ grp.ids ∨ (σ.next ≤ i ∧ i < (v.relabel σ.next).2) := by
+            intro i hi
+            rcases writeAt_ids hw i hi with h | h
+            · exact Or.inl (lookup_ids hroot i (hres'.2 i h))
+            · exact Or.inr (hrr.2 i h)
+          refine ⟨hrr.1, ?_, ?_, ?_⟩
+          · intro h grp' hh hne
+            simp only [List.getElem?_map, hh, Option.map_some, Option.some.injEq]
+            apply Group.subst_of_not_mem
+            intro hmem
+            exact hI.sep g h grp grp' hg hh (Ne.symm hne) l hl hmem
+          · intro h grp' hh
+            by_cases e : h = g
+            · exact Or.inl e
+            · right
+              simp only [List.getElem?_map, Option.map_eq_some_iff] at hh
+              obtain ⟨grp0, hgrp0, rfl⟩ := hh
+              rw [hgrp0]
+              congr 1
+              symm
+              apply Group.subst_of_not_mem
+              intro hmem
+              exact hI.sep g h grp grp0 hg hgrp0 (Ne.symm e) l hl hmem
+          · intro grp' hh i hi
+            simp only [List.getElem?_map, hg, Option.map_some, Option.some.injEq] at hh
+            subst hh
+            rcases ids_substF l k' cs' grp.fields i hi with h | h
+            · exact Or.inr ⟨grp, hg, h⟩
+            · rcases hcs' i h with h' | h'
+              · exact Or.inr ⟨grp, hg, h'⟩
+              · exact Or.inl h'
+        · cases hroot
+
+theorem save_step {t : Table} {σ σ' : State} {g : Nat} (tgt : Nat) (h : save t σ g = some σ') :
+    GroupsStep σ σ' tgt := by
+  unfold save at h
+  split at h
+  · split at h
+    · split at h
+      · simp only [Option.some.injEq] at h
+        subst h
+        exact GroupsStep.files rfl rfl
+      · cases h
+    · cases h
+  · cases h
+
+theorem construct_length {t : Table} {σ σ' : State} {c : Class} {args : List (String × Src)}
+    (h : construct t σ c args = some σ') : σ'.groups.length = σ.groups.length + 1 ∧ σ'.files = σ.files := by
+  unfold construct at h
+  split at h
+  · split at h
+    · simp only [Option.some.injEq] at h
+      subst h
+      simp
+    · cases h
+  · cases h
+
+/-- **one step**: a safe operation keeps the invariant and changes no group but its target -/
+theorem step_groupsStep {t : Table} {σ σ' : State} {op : Op} (hI : Inv t σ) (hsafe : op.safe t = true)
+    (h : step t σ op = some σ') : GroupsStep σ σ' (op.target σ) := by
+  cases op with
+  | construct c args => exact construct_step hI hsafe h
+  | mutate g attr path last v => exact mutate_step hI h
+  | assign g attr v =>
+    simp only [step] at h
+    have hr := relabel_range σ.next v
+    exact setField_step hr.1 hr.2 h
+  | assignVar g attr x => simp [Op.safe] at hsafe
+  | save g => exact save_step _ h
+  | load g f => exact load_step h
+  | dispatchLoad f =>
+    simp only [step, dispatchLoad] at h
+    split at h
+    · cases h
+    · split at h
+      · cases h
+      · rename_i c hc
+        split at h
+        · cases h
+        · rename_i σ1 h1
+          have s1 := construct_step hI (by simp [Op.safe]) h1
+          have s2 := load_step h
+          exact s1.trans s2
+
+theorem target_ne_zero {t : Table} {σ : State} {op : Op} (hI : Inv t σ) (hsafe : op.safe t = true)
+    (hns : ∀ g, op ≠ .save g) : op.target σ ≠ 0 := by
+  have hp := hI.pos
+  cases op with
+  | construct c args => simp only [Op.target]; omega
+  | dispatchLoad f => simp only [Op.target]; omega
+  | save g => exact absurd rfl (hns g)
+  | assignVar g a x => simp [Op.safe] at hsafe
+  | mutate g a p l v => simpa [Op.target, Op.safe] using hsafe
+  | assign g a v => simpa [Op.target, Op.safe] using hsafe
+  | load g f => simpa [Op.target, Op.safe] using hsafe
+
+theorem step_inv {t : Table} {σ σ' : State} {op : Op} (hI : Inv t σ) (hsafe : op.safe t = true)
+    (h : step t σ op = some σ') : Inv t σ' := by
+  by_cases hs : ∃ g, op = .save g
+  · obtain ⟨g, rfl⟩ := hs
+    exact hI.step (save_step 1 h) (by omega)
+  · exact hI.step (step_groupsStep hI hsafe h) (target_ne_zero hI hsafe (fun g e => hs ⟨g, e⟩))
+
+theorem stepD_inv {t : Table} {σ : State} {op : Op} (hI : Inv t σ) (hsafe : op.safe t = true) :
+    Inv t (stepD t σ op) := by
+  unfold stepD
+  cases h : step t σ op with
+  | none => exact hI
+  | some σ' => exact step_inv hI hsafe h
+
+theorem run_inv {t : Table} : ∀ (ops : List Op) {σ : State}, Inv t σ → (∀ op ∈ ops, op.safe t = true) →
+    Inv t (run t σ ops)
+  | [], _, hI, _ => hI
+  | op :: ops, σ, hI, hs => by
+    simp only [run, List.foldl_cons]
+    exact run_inv ops (stepD_inv hI (hs op List.mem_cons_self)) (fun o ho => hs o (List.mem_cons_of_mem _ ho))
+
+theorem run_append (t : Table) (σ : State) (a b : List Op) : run t σ (a ++ b) = run t (run t σ a) b := by
+  simp [run, List.foldl_append]
+
+theorem stepD_frame {t : Table} {σ : State} {op : Op} (hI : Inv t σ) (hsafe : op.safe t = true) :
+    ∀ g grp, σ.groups[g]? = some grp → g ≠ op.target σ → (stepD t σ op).groups[g]? = some grp := by
+  intro g grp hg hne
+  unfold stepD
+  cases h : step t σ op with
+  | none => exact hg
+  | some σ' => exact (step_groupsStep hI hsafe h).frame g grp hg hne
+
+/-! ### the initial state -/
+
+theorem mem_all (c : Class) : c ∈ Class.all := by cases c <;> simp [Class.all]
+
+theorem deepEnough_of_kind {s : StoreKind} {k : DKind} {v : Val} (hk : kindOK s k = true)
+    (hv : shapeOK k v = true) : deepEnough s v = true := by
+  cases k with
+  | imm =>
+    cases v with
+    | sc x => cases s <;> simp [deepEnough, Val.ids]
+    | node _ _ _ => simp [shapeOK, Val.isSc] at hv
+  | list =>
+    cases v with
+    | sc x => simp [shapeOK] at hv
+    | node j kk cs =>
+      cases kk <;> simp only [shapeOK] at hv <;> try cases hv
+      cases s <;> simp_all [deepEnough, kindOK, idsL_of_all_sc]
+  | ndarray =>
+    cases v with
+    | sc x => simp [shapeOK] at hv
+    | node j kk cs =>
+      cases kk <;> simp only [shapeOK] at hv <;> try cases hv
+      cases s <;> simp_all [deepEnough, kindOK, idsL_of_all_sc]
+  | dict =>
+    cases s <;> simp_all [deepEnough, kindOK]
+
+theorem init_inv {t : Table} {d : List (String × Val)} {n : Nat} (ht : tableOK t = true)
+    (hc : conforms t d = true) (hn : ∀ i ∈ idsF d, i < n) : Inv t (initState d n) := by
+  refine ⟨by simp [initState], ?_, ?_, ?_⟩
+  · intro g grp hg i hi
+    match g with
+    | 0 => simp only [initState, List.getElem?_cons_zero, Option.some.injEq] at hg; subst hg; exact hn i hi
+    | 1 =>
+      simp only [initState, List.getElem?_cons_succ, List.getElem?_cons_zero, Option.some.injEq] at hg
+      subst hg; simp [Group.ids, idsF] at hi
+    | g + 2 => simp [initState] at hg
+  · intro g h gg gh hgg hgh hne i hi hi'
+    match g, h with
+    | 0, 0 => exact hne rfl
+    | 1, 1 => exact hne rfl
+    | 0, 1 =>
+      simp only [initState, List.getElem?_cons_succ, List.getElem?_cons_zero, Option.some.injEq] at hgh
+      subst hgh; simp [Group.ids, idsF] at hi'
+    | 1, 0 =>
+      simp only [initState, List.getElem?_cons_succ, List.getElem?_cons_zero, Option.some.injEq] at hgg
+      subst hgg; simp [Group.ids, idsF] at hi
+    | g + 2, _ => simp [initState] at hgg
+    | _, h + 2 => simp [initState] at hgh
+  · intro c p hp v hv
+    simp only [tableOK, List.all_eq_true] at ht
+    simp only [conforms, List.all_eq_true] at hc
+    have h1 := ht c (mem_all c) p hp
+    have h2 := hc c (mem_all c) p hp
+    simp only [State.lookup, initState, List.getElem?_cons_zero] at hv
+    rw [hv] at h2
+    exact deepEnough_of_kind h1 h2
+
+/-! ## Part 3: save, load, dispatch -/
+
+theorem lookup_upsert_self : ∀ (fs : List (String × Val)) (k : String) (v : Val),
+    (upsert fs k v).lookup k = some v
+  | [], k, v => by simp [upsert]
+  | (k', v') :: rest, k, v => by
+    simp only [upsert]
+    split
+    · simp [List.lookup]
+    · rename_i hne
+      have : (k == k') = false := by simpa using fun e => hne e.symm
+      simp only [List.lookup, this]
+      exact lookup_upsert_self rest k v
+
+theorem lookup_upsert_ne : ∀ (fs : List (String × Val)) (k k2 : String) (v : Val), k2 ≠ k →
+    (upsert fs k v).lookup k2 = fs.lookup k2
+  | [], k, k2, v, h => by
+    have : (k2 == k) = false := by simpa using h
+    simp [upsert, List.lookup, this]
+  | (k', v') :: rest, k, k2, v, h => by
+    simp only [upsert]
+    split
+    · rename_i he
+      subst he
+      have : (k2 == k') = false := by simpa using h
+      simp [List.lookup, this]
+    · simp only [List.lookup]
+      split
+      · rfl
+      · exact lookup_upsert_ne rest k k2 v h
+
+theorem lookup_loadFields_not_mem : ∀ (file : File) (fs : List (String × Val)) (n : Nat) (k : String),
+    k ∉ file.map Prod.fst → (loadFields fs n file).1.lookup k = fs.lookup k
+  | [], fs, n, k, _ => by simp [loadFields]
+  | (k', j) :: rest, fs, n, k, h => by
+    simp only [List.map_cons, List.mem_cons, not_or] at h
+    simp only [loadFields]
+    rw [lookup_loadFields_not_mem rest _ _ k h.2]
+    exact lookup_upsert_ne fs k' k _ h.1
+
+theorem loadFields_lookup : ∀ (file : File) (fs : List (String × Val)) (n : Nat),
+    (file.map Prod.fst).Nodup → ∀ kj ∈ file,
+    ∃ v, (loadFields fs n file).1.lookup kj.1 = some v ∧ v.canon = kj.2
+  | [], _, _, _ => by simp
+  | (k, j) :: rest, fs, n, hnd => by
+    simp only [List.map_cons, List.nodup_cons] at hnd
+    intro kj hkj
+    simp only [List.mem_cons] at hkj
+    simp only [loadFields]
+    rcases hkj with rfl | hkj
+    · refine ⟨(j.toVal n).1, ?_, toVal_canon n j⟩
+      rw [lookup_loadFields_not_mem rest _ _ k hnd.1]
+      exact lookup_upsert_self fs k _
+    · exact loadFields_lookup rest _ _ hnd.2 kj hkj
+
+theorem attrsCanon_spec : ∀ (ps : List Param) (fs : List (String × Val)) (f : File),
+    attrsCanon fs ps = some f →
+    f.map Prod.fst = ps.map (·.name) ∧ ∀ p ∈ ps, ∃ v, fs.lookup p.name = some v ∧ (p.name, v.canon) ∈ f
+  | [], fs, f => by
+    intro h
+    simp only [attrsCanon, Option.some.injEq] at h
+    subst h
+    simp
+  | p :: ps, fs, f => by
+    intro h
+    simp only [attrsCanon] at h
+    split at h
+    · rename_i v rest hv hrest
+      simp only [Option.some.injEq] at h
+      subst h
+      have ih := attrsCanon_spec ps fs rest hrest
+      refine ⟨by simp [ih.1], ?_⟩
+      intro q hq
+      simp only [List.mem_cons] at hq
+      rcases hq with rfl | hq
+      · exact ⟨v, hv, List.mem_cons_self⟩
+      · obtain ⟨w, hw, hmem⟩ := ih.2 q hq
+        exact ⟨w, hw, List.mem_cons_of_mem _ hmem⟩
+    · cases h
+
+theorem attrsCanon_congr : ∀ (ps : List Param) (fs fs2 : List (String × Val)),
+    (∀ p ∈ ps, (fs2.lookup p.name).map Val.canon = (fs.lookup p.name).map Val.canon) →
+    attrsCanon fs2 ps = attrsCanon fs ps
+  | [], _, _, _ => by simp [attrsCanon]
+  | p :: ps, fs, fs2, h => by
+    have h1 := h p List.mem_cons_self
+    have ih := attrsCanon_congr ps fs fs2 (fun q hq => h q (List.mem_cons_of_mem _ hq))
+    simp only [attrsCanon, ih]
+    cases ha : fs.lookup p.name <;> cases hb : fs2.lookup p.name <;> simp_all <;>
+      cases attrsCanon fs ps <;> simp_all
+
+/-- loading the file written from fields `fs` into any fields `fs'` shows the content of `fs` -/
+theorem attrsCanon_loadFields (ps : List Param) (hnd : (ps.map (·.name)).Nodup)
+    (fs fs' : List (String × Val)) (f : File) (n : Nat) (h : attrsCanon fs ps = some f) :
+    attrsCanon (loadFields fs' n f).1 ps = some f := by
+  have hs := attrsCanon_spec ps fs f h
+  rw [← h]
+  apply attrsCanon_congr
+  intro p hp
+  obtain ⟨v, hv, hmem⟩ := hs.2 p hp
+  have hnd' : (f.map Prod.fst).Nodup := by rw [hs.1]; exact hnd
+  obtain ⟨v2, hv2, hc⟩ := loadFields_lookup f fs' n hnd' (p.name, v.canon) hmem
+  simp only at hv2 hc
+  simp [hv, hv2, hc]
+
+theorem save_spec {t : Table} {σ σ1 : State} {g : Nat} (h : save t σ g = some σ1) :
+    ∃ c fs f, σ.groups[g]? = some ⟨some c, fs⟩ ∧ attrsCanon fs (t c) = some f ∧
+      σ1 = { σ with files := σ.files ++ [f] } := by
+  unfold save at h
+  split at h
+  · rename_i c fs hg
+    split at h
+    · split at h
+      · rename_i f hf
+        simp only [Option.some.injEq] at h
+        exact ⟨c, fs, f, hg, hf, h.symm⟩
+      · cases h
+    · cases h
+  · cases h
+
+theorem attrDict_eq {t : Table} {σ : State} {g : Nat} {c : Class} {fs : List (String × Val)}
+    (hg : σ.groups[g]? = some ⟨some c, fs⟩) : attrDict t σ g = attrsCanon fs (t c) := by
+  simp only [attrDict, hg]
+
+/-! ### a default-constructed object shows the default objects -/
+
+def canonF (fs : List (String × Val)) : List (String × Json) := fs.map fun kv => (kv.1, kv.2.canon)
+
+theorem node_canon_id (i j : Nat) (k : Kind) (cs : List Val) :
+    (Val.node i k cs).canon = (Val.node j k cs).canon := by
+  cases k <;> simp [Val.canon]
+
+theorem storeVal_canon_indep (s : StoreKind) (n m : Nat) (v : Val) :
+    (storeVal s n v).map (fun r => r.1.canon) = (storeVal s m v).map (fun r => r.1.canon) := by
+  cases s with
+  | alias => simp [storeVal]
+  | copy =>
+    cases v with
+    | sc x => simp [storeVal]
+    | node j k cs => simp [storeVal, node_canon_id n m]
+  | npArray =>
+    cases v with
+    | sc x => simp [storeVal, toArray]
+    | node j k cs =>
+      cases k <;> simp only [storeVal, toArray] <;> first
+        | rfl
+        | (split <;> simp [node_canon_id n m])
+  | deepcopy => simp [storeVal, relabel_canon]
+  | deepcopyDict =>
+    simp only [storeVal]
+    split <;> simp [relabel_canon]
+
+theorem buildFields_default_canon (σ σ' : State) (c : Class)
+    (h : ∀ k, σ.lookup 0 k = σ'.lookup 0 k) : ∀ (ps : List Param) (n m : Nat),
+    (buildFields σ c [] ps n).map (fun r => canonF r.1) =
+      (buildFields σ' c [] ps m).map (fun r => canonF r.1)
+  | [], n, m => by simp [buildFields, canonF]
+  | p :: ps, n, m => by
+    simp only [buildFields, List.lookup, Option.getD_none, srcVal, h]
+    cases hv : σ'.lookup 0 (gkey c p.name) with
+    | none => simp
+    | some v =>
+      simp only [Option.map_some]
+      have hs := storeVal_canon_indep p.store n m v
+      cases h1 : storeVal p.store n v with
+      | none =>
+        rw [h1] at hs
+        cases h2 : storeVal p.store m v with
+        | none => simp
+        | some r => rw [h2] at hs; simp at hs
+      | some r1 =>
+        rw [h1] at hs
+        cases h2 : storeVal p.store m v with
+        | none => rw [h2] at hs; simp at hs
+        | some r2 =>
+          rw [h2] at hs
+          simp only [Option.map_some, Option.some.injEq] at hs
+          obtain ⟨w1, n1⟩ := r1
+          obtain ⟨w2, n2⟩ := r2
+          have ih := buildFields_default_canon σ σ' c h ps n1 n2
+          simp only
+          cases h3 : buildFields σ c [] ps n1 with
+          | none =>
+            rw [h3] at ih
+            cases h4 : buildFields σ' c [] ps n2 with
+            | none => simp
+            | some r => rw [h4] at ih; simp at ih
+          | some r3 =>
+            rw [h3] at ih
+            cases h4 : buildFields σ' c [] ps n2 with
+            | none => rw [h4] at ih; simp at ih
+            | some r4 =>
+              rw [h4] at ih
+              simp only [Option.map_some, Option.some.injEq] at ih
+              simp only at hs
+              simp [canonF, hs] at ih ⊢
+              exact ih
+
+theorem lookup_canonF : ∀ (fs : List (String × Val)) (k : String),
+    (canonF fs).lookup k = (fs.lookup k).map Val.canon
+  | [], k => by simp [canonF]
+  | (k', v) :: rest, k => by
+    have ih := lookup_canonF rest k
+    simp only [canonF, List.map_cons, List.lookup] at ih ⊢
+    split <;> simp_all
+
+theorem attrsCanon_of_canonF (ps : List Param) (fs fs' : List (String × Val))
+    (h : canonF fs = canonF fs') : attrsCanon fs ps = attrsCanon fs' ps := by
+  apply attrsCanon_congr
+  intro p _
+  rw [← lookup_canonF, ← lookup_canonF, h]
+
+theorem construct_default_attrDict (t : Table) (σ σ' : State) (c : Class)
+    (h0 : σ.groups[0]? = σ'.groups[0]?) :
+    attrDict t (stepD t σ (.construct c [])) σ.groups.length =
+      attrDict t (stepD t σ' (.construct c [])) σ'.groups.length := by
+  have hl : ∀ k, σ.lookup 0 k = σ'.lookup 0 k := fun k => by simp only [State.lookup, h0]
+  have hb := buildFields_default_canon σ σ' c hl (t c) σ.next σ'.next
+  have hnone : ∀ τ : State, attrDict t τ τ.groups.length = none := by
+    intro τ; simp [attrDict]
+  simp only [stepD, step, construct, List.all_nil, if_true]
+  cases h1 : buildFields σ c [] (t c) σ.next with
+  | none =>
+    rw [h1] at hb
+    cases h2 : buildFields σ' c [] (t c) σ'.next with
+    | none => simp [hnone]
+    | some r => rw [h2] at hb; simp at hb
+  | some r1 =>
+    rw [h1] at hb
+    cases h2 : buildFields σ' c [] (t c) σ'.next with
+    | none => rw [h2] at hb; simp at hb
+    | some r2 =>
+      rw [h2] at hb
+      simp only [Option.map_some, Option.some.injEq] at hb
+      obtain ⟨fs1, n1⟩ := r1
+      obtain ⟨fs2, n2⟩ := r2
+      simp only [Option.getD_some, attrDict, List.getElem?_concat_length]
+      exact attrsCanon_of_canonF (t c) fs1 fs2 hb
+
+/-! ### small concrete data for the non-vacuity examples of `Props/C15.lean` -/
+
+/-- follow a path in an `attr_dict` value -/
+def Json.get : Json → List Step → Option Json
+  | j, [] => some j
+  | .arr xs, .idx i :: rest => match xs[i]? with | some x => x.get rest | none => none
+  | .obj ks xs, .key s :: rest =>
+    if ks.idxOf s < ks.length then (match xs[ks.idxOf s]? with | some x => x.get rest | none => none) else none
+  | _, _ => none
+
+/-- the scalar at `attr[path]` of an `attr_dict` -/
+def peek (d : Option File) (attr : String) (path : List Step) : Option Scalar :=
+  match d.bind (fun f => f.lookup attr) with
+  | some j => match j.get path with | some (.sc s) => some s | _ => none
+  | none => none
+
+def sampleDefault (c : Class) (p : Param) : Val :=
+  match p.dflt with
+  | .list => .node 0 .list [.sc (.str "tukey"), .sc (.flt 1)]
+  | .ndarray => .node 0 .arr [.sc (.int 0), .sc (.int 5)]
+  | .dict => .node 0 (.dict ["operator", "bandwidth", "center_frequencies_in_hz"])
+      [.sc (.str "konno_and_ohmachi"), .sc (.int 40), .node 0 .arr [.sc (.flt 1), .sc (.flt 2)]]
+  | .imm =>
+    if p.name = "preprocessing_method" then
+      .sc (.str (match c with | .hvsrPre => "hvsr" | _ => "psd"))
+    else if p.name = "processing_method" then
+      .sc (.str (match c with
+        | .psdProc => "psd" | .azimuthal => "azimuthal" | .diffuse => "diffuse_field" | _ => "traditional"))
+    else if p.name = "method_to_combine_horizontals" then
+      .sc (.str (match c with | .singleAz => "single_azimuth" | .rotDpp => "rotdpp" | _ => "geometric_mean"))
+    else .sc .none
+
+/-- default objects of the shapes announced by table `t`, allocated at locations `0 .. n-1` -/
+def demoDefaults (t : Table) : List (String × Val) × Nat :=
+  (Class.all.flatMap fun c => (t c).map fun p => (gkey c p.name, sampleDefault c p)).foldl
+    (fun acc kv => ((acc.1 ++ [(kv.1, (kv.2.relabel acc.2).1)]), (kv.2.relabel acc.2).2)) ([], 0)
+
+def demoInit (t : Table) : State := initState (demoDefaults t).1 (demoDefaults t).2
+
+/-- all operations of the history execute (none raises) -/
+def allSucceed (t : Table) : State → List Op → Bool
+  | _, [] => true
+  | σ, op :: ops => match step t σ op with
+    | some σ' => allSucceed t σ' ops
+    | none => false
 
 end HV.Settings
